@@ -28,6 +28,7 @@ RULE = ("One evaluation = one seeded execution of two real clients (real "
         "reconnect faults. Non-trivial: both PAKE messages were delivered. "
         "Distinct: event-log digests among non-trivial runs.")
 RULE += (' Application messages include the empty string, a NUL byte and 3 kB blobs.')
+RULE += (' One relation appends a line ending or another blank other than the plain space; base codes may end in such a blank themselves (entered through set_code on one side and through the input helper on the other).')
 RULE += (' One relation spells the nameplate number differently (leading zero, digits of another script).')
 RULE += (' Codes also come with a doubled hyphen, a trailing hyphen or one word only; one relation adds a hyphen.')
 LEVEL_TEXT = ("Seeded exploration of inputs x schedules. match := NFC(codeA)=="
@@ -52,7 +53,10 @@ WORDS = ("café", "naïve", "가나", "q̣̇x", "alpha",
 PURPOSES = ("p1", "p2", "transit", "café", "café", "x/y z", "")
 RELATIONS = ("same", "same", "nfd", "nfd_partial", "mark_order", "char",
              "insert", "delete", "case", "nameplate", "compat", "appid",
-             "nfd+appid", "hyphen", "np_spelling")
+             "nfd+appid", "hyphen", "np_spelling", "trailing_ws")
+
+
+WS_TAILS = ("\n", "\r\n", "\t", "\x0b", "\u00a0", "\u2028", "\n\n")
 
 
 def relate(tape, code, relation):
@@ -97,6 +101,10 @@ def relate(tape, code, relation):
         return np + "-" + sw
     if relation == "nameplate":
         return str(int(np) + 1) + "-" + rest
+    if relation == "trailing_ws":
+        # a line ending or other blank (not the plain space, which is
+        # refused) behind the words: another code
+        return code + tape.pick(WS_TAILS, "wstail")
     if relation == "np_spelling":
         # the same number spelled differently: a leading zero, or digits of
         # another script (validate_nameplate's \d accepts them). Different
@@ -149,6 +157,8 @@ def run_one(seed, tape, opts):
         base = base + "-"                                        # trailing
     elif shape == 2:
         base = base.rsplit("-", 1)[0]                            # one word
+    elif shape == 3:
+        base = base + tape.pick(WS_TAILS, "wstail0")   # ends in a blank
     code_a = base
     code_b = relate(tape, base, relation)
     appid_a = "sim.example/app"
